@@ -978,14 +978,15 @@ def _short_of_take_limit(b, read_call, at_bb):
             from_read = bool(at.origin and at.origin[0] == "call" and at.origin[2] is read_call and any(st[0] == "downcast" and st[1] in ("Continue", "Ok") for st in at.steps))
             croot = c_
             ok_lim = False
-            for _ in range(4):
+            for _ in range(6):
                 if is_place(croot) and not croot["p"]["pr"] and croot["p"]["l"] in lim_roots:
                     ok_lim = True
                     break
                 if not is_place(croot):
                     break
                 ds = b.whole_defs(croot["p"]["l"])
-                if len(ds) == 1 and ds[0][2] == "assign" and ds[0][3]["rv"]["k"] == "use" and is_place(ds[0][3]["rv"]["op"]):
+                if len(ds) == 1 and ds[0][2] == "assign" and ds[0][3]["rv"]["k"] in ("use", "cast") and is_place(ds[0][3]["rv"]["op"]):
+                    # (the limit was formed by the same widening: `take(needed as u64)` .. `copied < needed as u64`)
                     croot = ds[0][3]["rv"]["op"]
                 else:
                     break
@@ -1012,6 +1013,13 @@ def _source_reads(b, src_fields):
                             on_source = True
             if on_source:
                 ok_edges.append((cb, ct, f["name"], is_take))
+        elif f.get("def") == "std::io::copy" and len(ct["args"]) == 2:
+            # io::copy(&mut source.take(n), &mut vec): drains the bounded source like read_to_end and returns the count
+            rtr = trace(b, ct["args"][0], passthrough_extra=("std::io::Read::take", "std::io::Read::by_ref"))
+            on_source = any(st[0] == "field" and st[1] in src_fields for st in rtr.steps)
+            is_take = any(st[0] == "call" and st[1] == "std::io::Read::take" for st in rtr.steps) or "std::io::Take<" in "".join(f.get("args") or [])
+            if on_source:
+                ok_edges.append((cb, ct, "read_to_end", is_take))
     return ok_edges
 
 
@@ -1159,7 +1167,8 @@ def r09_6(ctx):
                                 continue
                         good = True
                     ctx.ob(key + ":true-after-read_to_end", good, site(b, line=s["line"]), "EOF recorded after read_to_end returned Ok" + (" with unused limit" if good and any(e[3] for e in ok_edges) else "") if good else why)
-                elif rv["k"] == "binop" and rv["op"] == "Eq" and const_value(rv["b"]) == 0:
+                elif rv["k"] == "binop" and ((rv["op"] in ("Eq", "Le") and const_value(rv["b"]) == 0) or (rv["op"] == "Lt" and const_value(rv["b"]) == 1)):
+                    # (`n == 0`, and for an unsigned count the same test spelt `n < 1` or `n <= 0`)
                     good = _is_source_read_count(lib, b, rv["a"], src_fields)
                     ctx.ob(key + ":zero-length-read", good, site(b, line=s["line"]), "EOF iff the source's read returned Ok(0)" if good else "EOF derived from something other than the source read's Ok(0)")
                 elif rv["k"] == "use" and is_place(rv["op"]) and _is_empty_of_read_prefix(b, rv["op"], ok_edges):
@@ -1167,3 +1176,38 @@ def r09_6(ctx):
                 else:
                     ctx.ob(key + ":unrecognised", False, site(b, line=s["line"]), f"end-of-input flag computed by `{rv['k']} {rv.get('op', '')}`: not one of the recognised EOF tests (Ok(0) from read; Ok from read_to_end) — a short read is not EOF")
     ctx.ob("eof-flag-writes", n >= 2, cap, f"{n} write(s) to `{flag}`")
+
+
+@rule("R09.12", 3, "a prefix request is filled completely: outside its own `read`, the capture reader pulls from the source only with calls that keep reading until the requested amount or the end of input (read_to_end / io::copy of a Take / read_exact, or `read` in a loop) — one short read is never taken for the whole look-ahead", ["C09", "C02", "C07"])
+def r09_12(ctx):
+    import r_c03
+
+    lib = ctx.lib
+    cap, guard = _capture_adts(lib)
+    prefix_ = cap.split("<")[0] + "::"
+    own = [b for b in lib.bodies if b.id.startswith(prefix_) or b.id.startswith("<" + cap.split("<")[0])]
+    own_ids = {b.id for b in own}
+    n = 0
+    for b in own:
+        if b.id.endswith(" as std::io::Read>::read") or b.raw["def_kind"] == "Closure":
+            continue
+        # entry points only: helpers that other methods of the capture reader loop over are judged inlined there
+        callers = [c for c in lib.bodies if c.id not in own_ids and any(((fn_of(t) or {}).get("resolved") or (fn_of(t) or {}).get("def")) == b.id for _, t in c.calls())]
+        if not callers:
+            continue
+        sup = Super(lib, b, depth=3)
+        pulls = []
+        for nn, bx, t in sup.calls():
+            f = fn_of(t) or {}
+            if f.get("trait") in ("std::io::Read", "std::io::BufRead") and f.get("name") in r_c03._PULL_METHODS and r_c03._generic_source_ty(f.get("self_ty")):
+                pulls.append((nn, f["name"]))
+            elif f.get("def") == "std::io::copy" and r_c03._generic_source_ty((f.get("args") or [""])[0]):
+                pulls.append((nn, "copy"))
+        if not pulls:
+            continue
+        n += 1
+        single = [(nn, m) for nn, m in pulls if m in ("read", "read_vectored", "fill_buf") and not sup.on_cycle(nn)]
+        ctx.ob(f"fills-request:{b.name}", not single, sup.site(single[0][0]) if single else site(b),
+               f"{len(pulls)} source read(s), each one draining (read_to_end/read_exact) or repeated in a loop" if not single else
+               f"`{b.name}` asks the source once (`{single[0][1]}`) and goes on with whatever arrived: a reader that delivers fewer bytes than requested (a pipe, a socket) leaves the look-ahead short although more input follows — encoding and format detection then decide on a truncated prefix")
+    ctx.ob("capture-entry-points", n >= 2, cap, f"{n} capture entry point(s) that read from the source examined")
